@@ -17,8 +17,11 @@ from .. import oracle as O
 from ..core import Stats, guarded, pmap
 from ..hist import fork_call
 
-RATES = ['D:1.1', 'D:1.2', 'D:1.25']
-JPY_RATES = ['i:110', 'i:150', 'i:100']      # cross USD->JPY: 100, 125, 80
+# converter 2 holds exactly the rates of converter 0 (equal tables in two
+# objects: equality of content must never stand in for identity)
+RATES = ['D:1.1', 'D:1.2', 'D:1.1']
+JPY_RATES = ['i:110', 'i:150', 'i:110']      # cross USD->JPY: 100, 125, 100
+KNOWS_TND = (0, 2)
 MAX_STACK = 4
 
 
@@ -38,7 +41,7 @@ class MoneySys:
             c = MoneyConverter(self.eur, lambda: date(2020, 3, 15))
             specs = [(self.usd, O.dec(RATES[i]), 1),
                      (self.jpy, O.dec(JPY_RATES[i]), 1)]
-            if i == 0:      # only the first converter knows TND
+            if i in KNOWS_TND:      # converter 1 does not know TND
                 specs.append((self.tnd, O.dec('D:3.2'), 1))
             c.update(None, specs)
             self.convs.append(c)
@@ -158,7 +161,7 @@ class MoneySys:
             # converter decides, also when it has no rate
             try:
                 r3 = m.convert(self.tnd)
-                if self.stack[-1] != 0:
+                if self.stack[-1] not in KNOWS_TND:
                     out.append(('C12:money:older-converter-answers',
                                 f"10 EUR -> TND = {r3!r} although the most "
                                 f"recent converter c{self.stack[-1]} has no "
@@ -167,7 +170,7 @@ class MoneySys:
                     out.append(('C12:money:convert-uses-most-recent',
                                 f"10 EUR -> TND = {r3!r}, expected 32"))
             except quantity.UnitConversionError:
-                if self.stack[-1] == 0:
+                if self.stack[-1] in KNOWS_TND:
                     out.append(('C12:money:convert-uses-most-recent',
                                 "10 EUR -> TND raised although c0 is the "
                                 "most recent converter"))
@@ -583,7 +586,8 @@ def run(tier, seed):
                 ('table', 4, 8, True), ('table', 3, 5, False)]
         pdepth = 3
     else:
-        plan = [('money', 2, 6, True), ('money', 2, 3, False),
+        plan = [('money', 2, 6, True), ('money', 3, 4, True),
+                ('money', 2, 3, False),
                 ('generic', 3, 6, True), ('generic', 3, 3, False),
                 ('table', 3, 6, True), ('table', 3, 3, False)]
         pdepth = 2
